@@ -55,6 +55,11 @@ def run(ck):
                        "over pairs sorted by that label (as C01.4 / C12.5)")
     from .c01 import dedupe
     dedupe(ck, "C04.8")
+    ck.clause("C04.9", "a joined record is made only of segments that were checked against each other: a segment carried over "
+                       "from one part can share labels with the other part, and they would be scored twice (as C08.6)")
+    from ..report import RuleView
+    from . import c08
+    c08._joined_row(RuleView(ck, {"C08.6": "C04.9"}))
 
 
 # ------------------------------------------------------------------------------------------------------------ C04.1
